@@ -24,6 +24,7 @@ DESTS = [':1.1', ':1.2', 'org.verif.D']
 ARGS = ['x', 'y', '', 'xy', "it's", 'a,b', 'k=v']
 ARG_PATHS = ['/', '/a/', '/a/b', '/a/b/', '/a/bc', '/a/b/c', '/a/b/c/']
 TYPES = ['signal', 'method_call', 'method_return', 'error']
+SENDER = ':1.5'
 
 
 class _Cancelled(BaseException):
@@ -32,7 +33,7 @@ class _Cancelled(BaseException):
 
 def gen_rule(r, conn_level=False):
     rule = {}
-    keys = ['type', 'interface', 'member', 'path', 'path_namespace', 'destination', 'args', 'arg_paths']
+    keys = ['type', 'interface', 'member', 'path', 'path_namespace', 'destination', 'args', 'arg_paths', 'sender']
     k = r.choice([0, 1, 1, 2, 2, 3, 4])
     for key in r.sample(keys, k):
         if key == 'type':
@@ -47,6 +48,11 @@ def gen_rule(r, conn_level=False):
             rule['path_namespace'] = r.choice(NAMESPACES)
         elif key == 'destination':
             rule['destination'] = r.choice(DESTS)
+        elif key == 'sender':
+            # the statement's list of locally evaluated constraints does not include the sender (the local router cannot
+            # resolve well-known names); every generated message comes from SENDER, so a rule naming it is satisfied
+            # under either reading, and the rule *text* must still express it
+            rule['sender'] = SENDER
         elif key == 'args':
             rule['args'] = {r.choice([0, 0, 1, 2]): r.choice(ARGS) for _ in range(r.choice([1, 1, 2]))}
         elif key == 'arg_paths':
@@ -60,7 +66,7 @@ def rule_kwargs(rule):
     kw = {}
     if 'type' in rule:
         kw['mtype'] = rule['type']
-    for k in ('interface', 'member', 'path', 'path_namespace', 'destination'):
+    for k in ('interface', 'member', 'path', 'path_namespace', 'destination', 'sender'):
         if k in rule:
             kw[k] = rule[k]
     return kw
@@ -169,7 +175,7 @@ def build_raw(msg, serial):
         # replies carry no path/interface/member
     if msg.get('destination'):
         fields['destination'] = msg['destination']
-    fields['sender'] = ':1.5'
+    fields['sender'] = SENDER
     return RM.build(t, serial, fields, body_sig(msg['body']), msg['body'])
 
 
